@@ -1,59 +1,139 @@
-(* C11: refutations for the two places where a refused call changes the object (D17, D54), with
-   the parts that do hold. *)
+(* C11: a rejected standard adds nothing (repaired _vnacal_new_add_common), a refused property set
+   changes nothing (repaired vnaproperty_vset), and the regression witnesses for the orders the
+   code had before (D17, D54). *)
 Require Import List ZArith Bool Lia.
 Import ListNotations.
-Require Import LV.Err.ErrBase LV.Err.RefutedModel.
+Require Import LV.Err.ErrBase LV.Gen.ErrnoGen LV.Err.RefutedModel.
 Open Scope Z_scope.
 
-(* D17: handles 0..5 valid, 5 an unknown parameter, 99 invalid: the standard (5, 99) is refused but
-   leaves 5 registered and counted *)
-Lemma rejected_standard_adds_nothing_refuted_l :
+(* ---------------------------------------------------------------- D17 *)
+Section AddCommonProofs.
+  Variable valid : Z -> bool.
+  Variable unknown : Z -> bool.
+
+  Lemma known_app : forall s h x u m, known s h = true -> known (mknew (n_registered s ++ [x]) u m) h = true.
+  Proof.
+    intros s h x u m H. unfold known in *. simpl. rewrite existsb_app, H. reflexivity.
+  Qed.
+
+  Lemma check_monotone : forall s h s' h', get_parameter valid unknown s h = Some s' ->
+    check_parameter valid s h' = true -> check_parameter valid s' h' = true.
+  Proof.
+    intros s h s' h' G C. unfold get_parameter in G.
+    destruct ((0 <=? h) && known s h); [inversion G; subst; exact C|].
+    destruct (negb (valid h)); [discriminate|]. inversion G; subst. clear G.
+    unfold check_parameter in *. apply orb_true_iff in C. apply orb_true_iff. destruct C as [C|C]; [left | right; exact C].
+    apply andb_true_iff in C. destruct C as [A B]. apply andb_true_iff. split; [exact A|].
+    apply known_app. exact B.
+  Qed.
+
+  (* once every cell has passed the validation the registration loop cannot refuse *)
+  Lemma register_after_check_l : forall cells s,
+    forallb (check_parameter valid s) cells = true -> snd (register_cells valid unknown s cells) = true.
+  Proof.
+    induction cells as [|h r IH]; intros s H; simpl in *; [reflexivity|].
+    apply andb_true_iff in H. destruct H as [Hh Hr].
+    destruct (get_parameter valid unknown s h) as [s'|] eqn:G.
+    - apply IH. apply forallb_forall. intros x Hx.
+      apply (check_monotone s h s' x G). rewrite forallb_forall in Hr. apply Hr. exact Hx.
+    - exfalso. unfold get_parameter in G. unfold check_parameter in Hh.
+      destruct ((0 <=? h) && known s h); [discriminate|]. simpl in Hh. rewrite Hh in G. simpl in G. discriminate.
+  Qed.
+
+  (* repaired order: whatever the parameter table and the s-matrix, a refused standard leaves the
+     vnacal_new_t summary (registered parameters, unknown count, measurement count) as it was *)
+  Lemma rejected_standard_adds_nothing_l : forall s cells s' v r,
+    add_standard valid unknown s cells = (s', Refuse v r) -> s' = s.
+  Proof.
+    intros s cells s' v r. unfold add_standard.
+    destruct (forallb (check_parameter valid s) cells) eqn:C.
+    - pose proof (register_after_check_l cells s C) as R.
+      destruct (register_cells valid unknown s cells) as [s1 b]. simpl in R. subst b. discriminate.
+    - intro H. inversion H. reflexivity.
+  Qed.
+
+  (* and a standard is refused by the repaired order exactly when the old order refused it *)
+  Lemma add_standard_same_verdict_l : forall s cells,
+    is_pass (snd (add_standard valid unknown s cells)) = is_pass (snd (add_standard_before_fix valid unknown s cells)) /\
+    (is_pass (snd (add_standard valid unknown s cells)) = true ->
+     add_standard valid unknown s cells = add_standard_before_fix valid unknown s cells).
+  Proof.
+    intros s cells. unfold add_standard, add_standard_before_fix.
+    destruct (forallb (check_parameter valid s) cells) eqn:C.
+    - destruct (register_cells valid unknown s cells) as [s1 b]; split; reflexivity || (intros; reflexivity).
+    - assert (R : snd (register_cells valid unknown s cells) = false).
+      { clear - C. revert s C. induction cells as [|h r IH]; intros s C; simpl in *; [discriminate|].
+        apply andb_false_iff in C.
+        destruct (get_parameter valid unknown s h) as [s'|] eqn:G; [|reflexivity].
+        destruct C as [C|C].
+        - exfalso. unfold get_parameter in G. unfold check_parameter in C.
+          destruct ((0 <=? h) && known s h); [discriminate|]. simpl in C. rewrite C in G. discriminate.
+        - apply IH. destruct (forallb (check_parameter valid s') r) eqn:F; [|reflexivity].
+          exfalso. (* a cell refused against s is refused against the larger s' unless it was registered
+                      meanwhile, which needs it to be valid: then it was not refused against s *)
+          assert (M : forall x, check_parameter valid s' x = true -> check_parameter valid s x = true).
+          { intros x Hx. unfold get_parameter in G.
+            destruct ((0 <=? h) && known s h); [inversion G; subst; exact Hx|].
+            destruct (negb (valid h)) eqn:V; [discriminate|]. inversion G; subst. clear G.
+            unfold check_parameter in *. apply orb_true_iff in Hx. apply orb_true_iff.
+            destruct Hx as [Hx|Hx]; [|right; exact Hx].
+            apply andb_true_iff in Hx. destruct Hx as [A B]. unfold known in B. simpl in B.
+            rewrite existsb_app in B. apply orb_true_iff in B. destruct B as [B|B].
+            - left. apply andb_true_iff. split; assumption.
+            - right. simpl in B. rewrite orb_false_r in B. apply Z.eqb_eq in B. subst x.
+              apply negb_false_iff in V. exact V. }
+          assert (forallb (check_parameter valid s) r = true).
+          { apply forallb_forall. intros x Hx. apply M. rewrite forallb_forall in F. apply F. exact Hx. }
+          congruence. }
+      destruct (register_cells valid unknown s cells) as [s1 b]. simpl in R. subst b. split; [reflexivity | discriminate].
+  Qed.
+End AddCommonProofs.
+
+(* regression witness: the order before the repair.  Handles 0..5 valid, 5 an unknown parameter, 99
+   invalid: the standard (5, 99) is refused but leaves 5 registered and counted *)
+Lemma rejected_standard_adds_nothing_before_fix_D17_refuted_l :
   exists valid unknown s cells s',
-    add_standard valid unknown s cells = (s', Refuse VM1 (Via USAGE)) /\ s' <> s.
+    add_standard_before_fix valid unknown s cells = (s', Refuse VM1 (Via USAGE)) /\ s' <> s.
 Proof.
   exists (fun h => (0 <=? h) && (h <=? 5)), (fun h => h =? 5), (mknew [0] 0 0), [5; 99],
          (mknew [0; 5] 1 0).
   split; [vm_compute; reflexivity | discriminate].
 Qed.
 
-(* what does hold: a refused standard never adds a measurement (build-then-link) ... *)
-Lemma register_cells_measurements : forall valid unknown cells s,
-  n_measurements (fst (register_cells valid unknown s cells)) = n_measurements s.
+Example rejected_standard_example :
+  add_standard (fun h => (0 <=? h) && (h <=? 5)) (fun h => h =? 5) (mknew [0] 0 0) [5; 99]
+    = (mknew [0] 0 0, Refuse VM1 (Via USAGE)) /\
+  add_standard (fun h => (0 <=? h) && (h <=? 5)) (fun h => h =? 5) (mknew [0] 0 0) [5; 3]
+    = (mknew [0; 5; 3] 1 1, Pass).
+Proof. split; vm_compute; reflexivity. Qed.
+
+(* ---------------------------------------------------------------- D54 *)
+(* repaired order: a refused set / set_subtree leaves the tree as it was, is silent, EINVAL *)
+Lemma refused_property_set_unchanged_l : forall t path value t' v r,
+  vset t path value = (t', Refuse v r) -> t' = t /\ v = VM1 /\ r = Direct E_INVAL /\ callbacks r = 0%nat.
 Proof.
-  induction cells as [|h r IH]; intros s; simpl; [reflexivity|].
-  unfold get_parameter.
-  destruct ((0 <=? h) && known s h); [apply IH|].
-  destruct (negb (valid h)); [reflexivity|].
-  rewrite IH. reflexivity.
+  intros t path value t' v r H. destruct value; simpl in H; inversion H; subst. repeat split.
 Qed.
 
-Lemma rejected_standard_adds_no_measurement_l : forall valid unknown s cells s' v r,
-  add_standard valid unknown s cells = (s', Refuse v r) -> n_measurements s' = n_measurements s.
+Lemma refused_set_subtree_unchanged_l : forall t path trailing t' v r,
+  vset_subtree t path trailing = (t', Refuse v r) -> t' = t /\ v = VNULL /\ r = Direct E_INVAL.
 Proof.
-  intros valid unknown s cells s' v r. unfold add_standard.
-  pose proof (register_cells_measurements valid unknown cells s) as H.
-  destruct (register_cells valid unknown s cells) as [s1 [|]]; intro E; inversion E; subst.
-  exact H.
+  intros t path trailing t' v r H. destruct trailing; simpl in H; inversion H; subst. repeat split.
 Qed.
 
-(* ... and nothing at all when the first cell that is not yet registered is the invalid one *)
-Lemma rejected_first_cell_adds_nothing_l : forall valid unknown s h r,
-  ((0 <=? h) && known s h) = false -> valid h = false ->
-  add_standard valid unknown s (h :: r) = (s, Refuse VM1 (Via USAGE)).
-Proof.
-  intros valid unknown s h r K V. unfold add_standard. simpl. unfold get_parameter. rewrite K, V. reflexivity.
-Qed.
+(* the repair changed nothing for accepted calls *)
+Lemma vset_accepted_same_l : forall t path v, vset t path (Some v) = vset_before_fix t path (Some v).
+Proof. reflexivity. Qed.
 
-(* D54: root {1: "7"}; set "1.2" without a value is refused and leaves {1: {2: ~}} *)
-Lemma refused_property_set_unchanged_refuted_l :
-  exists t path t' v r, vset t path None = (t', Refuse v r) /\ t' <> t.
+(* regression witness: root {1: "7"}; set "1.2" without a value was refused and left {1: {2: ~}} *)
+Lemma refused_property_set_before_fix_D54_refuted_l :
+  exists t path t' v r, vset_before_fix t path None = (t', Refuse v r) /\ t' <> t.
 Proof.
   exists (PMap [(1, PScalar 7)]), [1; 2], (PMap [(1, PMap [(2, PNull)])]), VM1, (Direct E_INVAL).
   split; [vm_compute; reflexivity | discriminate].
 Qed.
 
-(* what does hold: a refused set is silent and returns -1 / EINVAL; and it changes nothing when
-   the path already conforms (every key on it exists and leads through maps) *)
-Lemma refused_property_set_classified_l : forall t path t' v r,
-  vset t path None = (t', Refuse v r) -> v = VM1 /\ r = Direct E_INVAL /\ callbacks r = 0%nat.
-Proof. intros t path t' v r H. inversion H; subst. repeat split. Qed.
+Example property_set_example :
+  vset (PMap [(1, PScalar 7)]) [1; 2] None = (PMap [(1, PScalar 7)], Refuse VM1 (Direct E_INVAL)) /\
+  vset (PMap [(1, PScalar 7)]) [1; 2] (Some (PScalar 9)) = (PMap [(1, PMap [(2, PScalar 9)])], Pass).
+Proof. split; vm_compute; reflexivity. Qed.
